@@ -73,6 +73,10 @@ func c12Start(k int) *txref.Tx {
 		t.Outs = []txref.Out{std}
 	case 9: // two data outputs and a standard one
 		t.Outs = []txref.Out{{Sats: 0, Script: append([]byte{0x00, 0x6a, 0x4c, 100}, fill(100, 5)...)}, std, {Sats: 0, Script: append([]byte{0x6a, 0x4c, 150}, fill(150, 6)...)}}
+	case 12: // a data output that is the bare OP_RETURN opcode (one byte, no payload) next to a standard one
+		t.Outs = []txref.Out{std, {Sats: 0, Script: []byte{0x6a}}}
+	case 13: // payload-less OP_FALSE OP_RETURN, and a one-byte script that is NOT data
+		t.Outs = []txref.Out{{Sats: 0, Script: []byte{0x00, 0x6a}}, std, {Sats: 1, Script: []byte{0x00}}}
 	case 6, 7, 8: // 250 / 251 / 252 prior inputs: the next ones cross the 252|253 input-count boundary
 		for i := 0; i < 244+k; i++ {
 			t.Ins = append(t.Ins, p2pkhIn(i, 5))
@@ -309,7 +313,7 @@ func c12Check(c c12Case) []rep.Finding { return c12Run(c).fs }
 
 func init() {
 	p := register(&Prop{ID: "C12", Level: "model_checking",
-		Rule: "explicit-state exploration of the funding loop through the real Tx.Fund with the supplier as the nondeterministic environment: every supplier history of length <=4 (quick) / <=5 (thorough; one less from the three start states with 250/251/252 prior inputs, where new inputs cross the 252|253 count boundary) over 16 answers {ErrNoUTXO, wrapped ErrNoUTXO, other error, empty batch, [small], [small,small], [exactly the deficit], [deficit-1], [huge], [huge,small], [31-byte txid], [UTXO with a sequence field], [non-P2PKH UTXO], [UTXO repeating the outpoint of the transaction's first input], [small, the same outpoint again], [UTXO locked by a P2PKH inscription]} (exhaustion after the history ends) x 12 starting transactions (unsigned prior inputs read back from the extended serialisation, no inputs, with a lock time, prior unsigned/signed input, data output, already funded, empty, 250/251/252 prior inputs, two data outputs) x 5 fee quotes (incl. unequal data rate and a rate that is not an exact binary fraction); a reference loop with a big-integer fee model runs in lockstep inside the supplier: a state is (start, quote, inputs so far, current deficit), a transition is one supplier call. Oracle: supplier called only with a deficit and with exactly the current one, success iff covered, inputs = previous ++ batches field for field with final sequence, exhaustion -> ErrInsufficientFunds, supplier error propagated, outputs untouched; a funded transaction handed to Fund again is left alone without a supplier call",
+		Rule: "explicit-state exploration of the funding loop through the real Tx.Fund with the supplier as the nondeterministic environment: every supplier history of length <=4 (quick) / <=5 (thorough; one less from the three start states with 250/251/252 prior inputs, where new inputs cross the 252|253 count boundary) over 16 answers {ErrNoUTXO, wrapped ErrNoUTXO, other error, empty batch, [small], [small,small], [exactly the deficit], [deficit-1], [huge], [huge,small], [31-byte txid], [UTXO with a sequence field], [non-P2PKH UTXO], [UTXO repeating the outpoint of the transaction's first input], [small, the same outpoint again], [UTXO locked by a P2PKH inscription]} (exhaustion after the history ends) x 14 starting transactions (payload-less data outputs `6a` / `00 6a` next to a one-byte script that is not data, unsigned prior inputs read back from the extended serialisation, no inputs, with a lock time, prior unsigned/signed input, data output, already funded, empty, 250/251/252 prior inputs, two data outputs) x 6 fee quotes (incl. data dearer than standard, data cheaper and a rate that is not an exact binary fraction); a reference loop with a big-integer fee model runs in lockstep inside the supplier: a state is (start, quote, inputs so far, current deficit), a transition is one supplier call. Oracle: supplier called only with a deficit and with exactly the current one, success iff covered, inputs = previous ++ batches field for field with final sequence, exhaustion -> ErrInsufficientFunds, supplier error propagated, outputs untouched; a funded transaction handed to Fund again is left alone without a supplier call",
 	})
 	sp := NewSpace(p, "histories", c12Check)
 	p.Run = func(r *rep.Run, thorough bool) {
@@ -317,7 +321,7 @@ func init() {
 		if thorough {
 			maxLen = 5
 		}
-		quotes := []quote{{5, 100, 5, 100}, {1, 1, 1, 1}, {500, 1000, 250, 1000}, {0, 1, 0, 1}, {350, 1000, 35, 100}}
+		quotes := []quote{{5, 100, 5, 100}, {1, 1, 1, 1}, {500, 1000, 250, 1000}, {0, 1, 0, 1}, {350, 1000, 35, 100}, {1, 2, 3, 1}}
 		var mu sync.Mutex
 		states := map[string]struct{}{}
 		transitions, traces := 0, 0
@@ -337,7 +341,7 @@ func init() {
 			}
 			return res.fs
 		}}).Each(r, func(yield func(c12Case)) {
-			for st := 0; st < 12; st++ {
+			for st := 0; st < 14; st++ {
 				for _, q := range quotes {
 					var rec func(h []int)
 					rec = func(h []int) {
